@@ -316,8 +316,12 @@ def classes_from_real(prog, tp, regions):
         local = [x for x in names if x not in args]
         if any(fir._is_none(dm[x][5]) and live_after(dummies, r['k'], x) for x in local if x in dm):
             cs.append(K_LIVE)
-        if any(intent.get(x) == 'out' and not must_def(x, body) and live_after(dummies, r['k'], x) for x in args):
-            cs.append(K_OUT)
+        for x in args:
+            if intent.get(x) == 'out':
+                li = live_in(x, body)
+                if li is True or (li is None and live_after(dummies, r['k'], x)):
+                    cs.append(K_OUT)
+                    break
     return [c for c in CLASS_ORDER if c in cs]
 
 
@@ -467,8 +471,9 @@ def add_regions(rng, prog):
             text += f' name(reg{len(used)})'
         if rng.random() < 0.3:
             bv = sorted(set(body_vars(sl)))
-            scal = [x for x in bv if x in dm and not dm[x][4] and fir._is_none(dm[x][5]) and x not in loop_vars(sl)]
-            arrs = [x for x in bv if x in dm and dm[x][4]]
+            scal = [x for x in bv if x in dm and not dm[x][4] and fir._is_none(dm[x][5]) and x not in loop_vars(sl)
+                    and str(dm[x][3]) != 'in']      # an INTENT(IN) variable of the caller cannot be an INOUT actual
+            arrs = [x for x in bv if x in dm and dm[x][4] and str(dm[x][3]) != 'in']
             pool = scal + (arrs if rng.random() < 0.25 else [])
             if pool:
                 x = rng.choice(pool)
